@@ -46,6 +46,7 @@ def sections(f):
         drops = {b["i"] for b in f.blocks if not b["cleanup"] and b["term"]["t"] == "drop" and b["term"]["p"]["l"] == l
                  and not b["term"]["p"]["proj"]}
         moved = False
+        handoffs = set()
         for b in f.blocks:
             if b["cleanup"]:
                 continue
@@ -54,6 +55,25 @@ def sections(f):
                         s_["rv"]["a"].get("l") == l and not s_["rv"]["a"]["proj"]:
                     drops.add(b["i"])      # the guard moves into another local, which has its own section
                     moved = True
+            tt = b["term"]
+            if tt["t"] == "call" and any(a.get("o") == "move" and a.get("l") == l and not a.get("proj") for a in tt["args"]):
+                drops.add(b["i"])          # drop(guard) / guard handed to a callee by value
+                moved = True
+                if not (tt.get("callee") or "").endswith("mem::drop"):
+                    handoffs.add(b["i"])   # the callee runs with the lock held: its call is checked like work under the lock
+        # drop flags: when the guard is moved on some path, its scope-end drop is guarded by `switchInt(flag)`; while the guard
+        # is held the flag is set, so from a held state only the edge to the drop is feasible
+        flag_edge = {}
+        for b in f.blocks:
+            if b["cleanup"] or b["term"]["t"] != "switch":
+                continue
+            d = b["term"]["discr"]
+            if d.get("o") not in ("copy", "move") or d["proj"] or f.locals[d["l"]]["ty"].get("k") != "bool" or f.locals[d["l"]].get("user"):
+                continue
+            tgts = [tg for _, tg in b["term"]["arms"]] + [b["term"]["otherwise"]]
+            to_drop = [tg for tg in tgts if tg in drops and f.blocks[tg]["term"]["t"] == "drop"]
+            if len(to_drop) == 1 and len(set(tgts)) == 2:
+                flag_edge[b["i"]] = to_drop[0]
         # moved out (returned / passed on) counts as end of our knowledge: treat like a drop site
         for db, start in defs:
             live = set()
@@ -65,8 +85,11 @@ def sections(f):
                 live.add(x)
                 if x in drops:
                     continue
+                if x in flag_edge:
+                    st.append(flag_edge[x])
+                    continue
                 st.extend(f.cfg.succ[x])
-            out.append((l, db, live, drops))
+            out.append((l, db, live, drops - handoffs))
     return out
 
 
@@ -282,10 +305,22 @@ def run(rep, crate, cfg):
         for b, t, d in sites:
             if terms.find(gen, t) is not None:
                 continue
-            m = match(("call", V("c", lambda x: isinstance(x, str) and x.endswith("::clone")), (V("x"),)), t)
-            hit = m is not None and any(terms.find(("call", ct[1], ct[2]), m["x"]) is not None
-                                        for ct in [N(ls.canon(ls.tb.call_term(e["block"], f.blocks[e["block"]]["term"]))) for e in allgets])
-            okret = okret and hit
+            # a hit returns a clone of the value found under k: clone(get(..)), get(..).map(Arc::clone), get(..).cloned()
+            gts = [N(ls.canon(ls.tb.call_term(e["block"], f.blocks[e["block"]]["term"]))) for e in allgets]
+
+            def from_get(x, cloned=False):
+                if x in gts:
+                    return cloned
+                if x[0] in ("ref", "deref", "deref*", "field", "variant"):
+                    return from_get(x[1], cloned)
+                if x[0] == "call" and isinstance(x[1], str) and x[2]:
+                    sh = x[1].split("::")[-1]
+                    if sh in ("clone", "cloned"):
+                        return from_get(x[2][0], True)
+                    if sh == "map" and len(x[2]) == 2 and "clone" in repr(x[2][1]).lower():
+                        return from_get(x[2][0], True)
+                return False
+            okret = okret and from_get(N(t))
         rep.check(okret and len(sites) >= 3, R4, f.key, "returns", where,
                   "every return is either the freshly generated plan for k or a clone of the plan found under k", {"sites": len(sites)}, cfg)
     # the only consumer: key == number of source symbols of the block being encoded
